@@ -201,6 +201,13 @@ class World(object):
             # written) object are off limits too, the library would deep-copy that object
             bo = [self.slots[i].obj for i in busy]
             cand = [i for i in cand if not any(self.reg_reaches(self.slots[i].obj, b) for b in bo)]
+            if self.cfg_template is not None:
+                # every construction copies the global Config.template, registers included
+                c = self.configs[self.cfg_template]
+                for f in REG_FIELDS:
+                    r = getattr(c, '_' + f, None)
+                    if isinstance(r, Fxp) and any(self.reg_reaches(r, b) for b in bo):
+                        raise Skip('Config.template leads to an object in flight')
         bad = [s.obj for s in self.slots if s.tainted]
         if bad:
             # an abandoned (aborted in place) object may still sit in somebody's config as a result
